@@ -224,6 +224,34 @@ def rate_rule(ctx):
         rep.ok("C25.R7", C, "sign ratio of Omega2 : Omega1 not syntactically determinate (no verdict)", verdict="unknown", trivial=True)
 
 
+def attribute_alias_inplace(ctx, rule="C25.R10"):
+    """K11 on the revolute joint: `x = self.a` binds the attribute's object; `x += ...` is in place when that object is an ndarray (a 0-d array
+    from np.squeeze / np.asarray, a length-1 slice), rebinding when it is a Python float.  The pinned code writes `self.angle0 + ...`, which
+    always creates a new object."""
+    rep = ctx.rep
+    cls = ctx.repo.get(REV, "Revolute")
+    n = 0
+    for fn in [f for f in cls.body if isinstance(f, ast.FunctionDef) and f.name not in ("__init__",)]:
+        alias = {}
+        for w in ast.walk(fn):
+            if isinstance(w, ast.Assign) and len(w.targets) == 1 and isinstance(w.targets[0], ast.Name) and isinstance(w.value, ast.Attribute) and dotted(w.value.value) == "self":
+                alias.setdefault(w.targets[0].id, []).append(w)
+        for w in ast.walk(fn):
+            if isinstance(w, ast.AugAssign) and isinstance(w.target, ast.Name) and w.target.id in alias:
+                # only if every binding of the name before this statement is such an alias (a later `x = x + 0` would break the aliasing)
+                others = [b for b in ast.walk(fn) if isinstance(b, ast.Assign) and any(isinstance(t, ast.Name) and t.id == w.target.id for t in b.targets) and b not in alias[w.target.id]
+                          and b.lineno < w.lineno]
+                if others:
+                    continue
+                n += 1
+                a = alias[w.target.id][0]
+                rep.bad(rule, f"{REV}:Revolute.{fn.name}", w, f"`{norm_src(a)}` binds the attribute's own object and `{norm_src(w)[:50]}` updates it in place when it is a numpy array: every query then "
+                        f"adds the measured rotation onto self.{a.value.attr} - the reported angle grows with repeated queries at one configuration and reset() cannot restore the initial state",
+                        f"{REV}:{w.lineno}")
+    if n == 0:
+        rep.ok(rule, f"{REV}:Revolute", "no in-place operation on a local that aliases an attribute")
+
+
 def history_only(ctx, rule="C25.R9"):
     """'the reported angle equals the initial angle plus the accumulated rotation' for ANY history sampled finely enough - whatever time stamps
     the samples carry.  Integrators evaluate at non-monotone times (rejected steps, stage values, post-processing from t0), so a tracking
@@ -253,6 +281,8 @@ def history_only(ctx, rule="C25.R9"):
 
 def run(ctx):
     rep = ctx.rep
+    rep.rule("C25.R10", "queries do not modify the joint's parameters: no local bound directly to an attribute (`angle = self.angle0`) is the target of an in-place operation - for an angle0 given as numpy array `angle += ...` writes into the stored initial angle", 1)
+    attribute_alias_inplace(ctx)
     rep.rule("C25.R9", "the tracked angle is a function of the rotation HISTORY only: the query l() neither resets the tracking state itself nor stores / compares the time stamp of the previous query", 2)
     history_only(ctx)
     rep.rule("C25.R1", "writers of the tracking state", 4)
@@ -558,4 +588,9 @@ NEUTRAL += [
 MUTANTS += [
     dict(id="c25-r9-seed", canary=True, what="[seeded by sub-agent] Revolute.l resets the tracked angle automatically when a query carries an earlier time stamp than the previous one", file=REV,
          old="    def l(self, t, q):\n", new="    def l(self, t, q):\n        if t < getattr(self, \"previous_t\", -np.inf):\n            self.reset()\n        self.previous_t = t\n", expect="C25.R9"),
+]
+
+MUTANTS += [
+    dict(id="c25-r10-seed", canary=True, what="[seeded by sub-agent] Revolute.l assembles the angle as `angle = self.angle0; angle += ...` (in place for an array-valued angle0)", file=REV,
+         old='        angle = self.angle0 + self.n_full_rotations * 2 * np.pi\n', new="        angle = self.angle0\n        angle += self.n_full_rotations * 2 * np.pi\n", expect="C25.R10"),
 ]
